@@ -212,6 +212,8 @@ def make_objective(rec, spec, target=None):
             else:
                 raise common.HarnessError("bad objective alternative " + str(alt))
         _log_call(rec, "obj", k, x, val, alt)
+        if rec.case.get("scribble") and isinstance(x, np.ndarray) and x.flags.writeable:
+            x[...] = NAN  # a user function may use its argument as scratch space
         if rec.case.get("args_probe"):
             rec.notes.setdefault("args", []).append(args)
         return val
@@ -248,6 +250,8 @@ def make_constraint(rec, j, con):
                 raise common.HarnessError("bad constraint alternative " + str(alt))
         val = np.array(vals, dtype=float)
         _log_call(rec, fid, k, x, val.copy(), alt)
+        if rec.case.get("scribble") and isinstance(x, np.ndarray) and x.flags.writeable:
+            x[...] = NAN
         if scalar and len(vals) == 1:
             return float(vals[0])
         return val
